@@ -289,7 +289,7 @@ def finish(mod, tier, seed, src, cases, results, t0, exhaustive=True):
     by_dev = {}
     for case, r in zip(cases, results):
         if "dev" in case and r["status"] in ("ok", "violation", "unconfirmed"):
-            k = "full-product" if case["dev"] == -1 else str(case["dev"])
+            k = "full-product" if case["dev"] == -1 else (str(case["dev"]) if case["dev"] < 10 else f"second-centre+{case['dev'] - 10}")
             by_dev[k] = by_dev.get(k, 0) + 1
     # samples: a few actual cases, spread over the enumeration
     ex_idx = [i for i, r in enumerate(results) if r["status"] in ("ok", "violation", "unconfirmed")]
